@@ -7,6 +7,7 @@ import (
 	"io/fs"
 	"os"
 	"strings"
+	"sync"
 
 	"github.com/avfs/avfs"
 	"github.com/avfs/avfs/vfs/basepathfs"
@@ -112,13 +113,13 @@ func md5hex(b []byte) string {
 }
 
 type copyCase struct {
-	kind             string // copy | hash
-	srcfs, dstfs     string
-	hashing          bool
-	size, cseed      int
-	smode            int
-	dstPerm          int // -1: destination absent
-	faults           []fault
+	kind         string // copy | hash
+	srcfs, dstfs string
+	hashing      bool
+	size, cseed  int
+	smode        int
+	dstPerm      int // -1: destination absent
+	faults       []fault
 }
 
 func (c copyCase) line() string {
@@ -340,4 +341,32 @@ func runCopy(cfg config) {
 			}
 		}
 	}
+	// Concurrent batch: the same fault-free copies and hashes, many at once in different goroutines (CopyFile shares a
+	// buffer pool between calls): every call must still give exactly what the model gives for it alone.
+	{
+		var batch []copyCase
+		kinds := []string{"mem", "orefa"}
+		for i := 0; i < 48; i++ {
+			c := copyCase{kind: "copy", srcfs: kinds[i%2], dstfs: kinds[(i/2)%2], hashing: i%3 != 0, size: []int{32768, 65537, 40000, 98304, 1}[i%5], cseed: 100 + i, smode: 0o644, dstPerm: -1}
+			if i%8 == 7 {
+				c = copyCase{kind: "hash", srcfs: kinds[i%2], dstfs: "-", hashing: true, size: 65537, cseed: 100 + i, smode: 0o644, dstPerm: -1}
+			}
+			batch = append(batch, c)
+		}
+		res := make([]string, len(batch))
+		var wg sync.WaitGroup
+		for i := range batch {
+			wg.Add(1)
+			go func(i int) {
+				defer wg.Done()
+				res[i] = execCopyCase(batch[i], fmt.Sprintf("%s/conc%d", scratch, i))
+			}(i)
+		}
+		wg.Wait()
+		for i, c := range batch {
+			o.count("kind:concurrent-" + c.kind)
+			o.emit(c.line(), res[i], "")
+		}
+	}
+
 }
